@@ -13,8 +13,9 @@ RULE = (
     "exhaustively with the others fixed, plus random cross products; "
     "(b) wrapping strings: valid standard strings (placeholder forms "
     "included) and every single-character insertion / deletion / "
-    "substitution (alphabet 0-9 n s e w N S E W x X z Z _ space - / : .) of "
-    "seed strings, plus prefix/suffix junk; also via Tract(desc, trs=s). "
+    "substitution / transposition (alphabet 0-9 n s e w N S E W x X z Z _ "
+    "space - / : .) of seed strings, plus prefix/suffix junk, and (thorough) "
+    "~480k random double edits; also via Tract(desc, trs=s). "
     "Oracle: own anchored grammar (pv/oracles/trs.py). Non-trivial: a "
     "construction with at least one component passed as a string or a "
     "section < 10 (padding), or a wrapped string that is NOT exactly "
@@ -49,6 +50,8 @@ def plan(tier, seed):
             shards.append({'family': 'cross', 'n': 100000, 'i': i})
         for i in range(10):
             shards.append({'family': 'nearmiss', 'seeds': 25, 'i': i})
+        for i in range(8):
+            shards.append({'family': 'nearmiss2', 'n': 60000, 'i': i})
     return shards
 
 
@@ -318,6 +321,28 @@ def run_shard(shard, ctx):
                 _check_wrap(ctx, rep, pytrs, seed_s + j, 'suffix')
             up = seed_s.upper()
             _check_wrap(ctx, rep, pytrs, up, 'upper')
+        return
+    if fam == 'nearmiss2':
+        # Two random edits (sampled; distance 1 is exhaustive per seed).
+        seeds = _seed_strings(rng, 400)
+        for _ in range(shard['n']):
+            s = rng.choice(seeds)
+            for _e in range(2):
+                op = rng.choice(('ins', 'del', 'sub', 'swap'))
+                i = rng.randrange(len(s) + 1) if s else 0
+                c = rng.choice(ALPHABET)
+                if op == 'ins' or not s:
+                    s = s[:i] + c + s[i:]
+                elif op == 'del':
+                    i = min(i, len(s) - 1)
+                    s = s[:i] + s[i + 1:]
+                elif op == 'sub':
+                    i = min(i, len(s) - 1)
+                    s = s[:i] + c + s[i + 1:]
+                elif len(s) > 1:
+                    i = min(i, len(s) - 2)
+                    s = s[:i] + s[i + 1] + s[i] + s[i + 2:]
+            _check_wrap(ctx, rep, pytrs, s, 'edit2')
         return
     raise ValueError(fam)
 
